@@ -597,6 +597,22 @@ def run(ctx):
     ctx.holds('R06m', exm, None, '%d dereference(s) of nullable error-only fields %s examined' % (n_nf, sorted(nullable)),
               construct='nullable error field scan', trivial=True)
 
+    # ---- R06n: parsers are run through parse_content()
+    ctx.rule('R06n', 'a parser object\'s parse() is called by LatexWalker.parse_content() only: that is where a parse error '
+                     'is turned into recovered nodes in tolerant mode (a direct call loses the construct)', 1)
+    for mod_ in sorted(repo.modules.values(), key=lambda m_: m_.name):
+        if not mod_.name.startswith('pylatexenc.') or mod_.name.endswith('__main__'):
+            continue
+        for q_, f_ in sorted(mod_.functions.items()):
+            for c_ in iter_own(f_):
+                if isinstance(c_, ast.Call) and isinstance(c_.func, ast.Attribute) and c_.func.attr == 'parse' and (
+                        kwarg(c_, 'token_reader') is not None or kwarg(c_, 'latex_walker') is not None or len(c_.args) >= 3):
+                    ctx.decide('R06n', q_.endswith('.parse_content'), mod_, c_, 'parse() called from parse_content',
+                               '%s calls %s directly: an error raised by that parser is not recovered by parse_content() '
+                               '(in tolerant mode an unterminated verbatim construct is dropped from the tree, leaving a '
+                               'hole) and no open context is recorded' % (q_, short(c_, 50)),
+                               construct='%s: %s' % (q_, short(c_, 40)))
+
     return 'other', (
         'Exception-escape analysis in the tolerant configuration (the tolerance check and the '
         'parse_content context manager suppress the parse-error family), the recovery hand-over '
